@@ -141,7 +141,7 @@ Definition is_math_fn (t : tok) : bool :=
 (* calc mode of the body of a block met by convert_rpx_in_block in mode `in_calc` *)
 Definition child_calc (in_calc : bool) (open : tok) : bool :=
   match open with
-  | TFunc s => is_math_name s
+  | TFunc s => is_math_name s || in_calc
   | TParen => in_calc
   | _ => false
   end.
@@ -504,6 +504,9 @@ Definition contain_rule_list (x : str) : bool :=
   str_eqb_ci x s_layer || str_eqb_ci x s_container || str_eqb_ci x s_scope ||
   str_eqb_ci x s_starting_style.
 
+Definition is_layer_fn (t : tok) : bool :=
+  match t with TFunc x => str_eqb_ci x s_layer | _ => false end.
+
 (* prelude loop of a generic at-rule; `rec` = parse_rules on a nested block *)
 Fixpoint at_prelude (o : opts) (rec : list node -> pos -> wstate -> wstate) (contain : bool)
                     (mark : nat * nat) (l : list node) (st : wstate) {struct l} : list node * wstate :=
@@ -521,7 +524,9 @@ Fixpoint at_prelude (o : opts) (rec : list node -> pos -> wstate -> wstate) (con
                (r, set_stack st4 (removelast (w_stack st4)))
            | Block open p body _ _ =>
                let st1 := tok_at st open p None in
-               let st2 := cn_body o body true false false st1 in
+               (* `layer(a.b)` (pass-through `@import`) names a cascade layer: value walker, no class handling *)
+               let st2 := if is_layer_fn open then rpx_body o false body None st1
+                          else cn_body o body true false false st1 in
                at_prelude o rec contain mark r (tok_at st2 (close_of open) p None)
            | Leaf TSemi p => (r, tok_at st TSemi p None)
            | Leaf t p => at_prelude o rec contain mark r (tok_at st t p None)
